@@ -111,7 +111,12 @@ theorem stdStep_progress (op : Opts) (n : Nat) (s : St) (o : Nat) (prev c : Char
   · rw [if_pos h11] at h
     -- comments
     cases r with
-    | nil => close_leaf
+    | nil =>
+      simp only [Except.ok.injEq, Prod.mk.injEq] at h
+      obtain ⟨_, _, _, rfl⟩ := h
+      have := joinLen_pos op [] '=' '='
+      simp
+      omega
     | cons d r' =>
       simp only at h
       by_cases ha : (decide (d = '/') && op.treatCxxComments) = true
@@ -157,5 +162,32 @@ theorem stdStep_progress (op : Opts) (n : Nat) (s : St) (o : Nat) (prev c : Char
     simp only [Except.ok.injEq, Prod.mk.injEq] at h
     obtain ⟨_, _, _, rfl⟩ := h
     exact this
+
+/-- the result of the main loop does not depend on the fuel once it exceeds the length of what is left:
+    the `out of fuel` branch of `stdLoop` is never taken from `parseStandardLine` (fuel = length + 1) -/
+theorem stdLoop_fuel_irrelevant (op : Opts) (n : Nat) : ∀ (f1 f2 : Nat) (s : St) (o : Nat) (prev : Char)
+    (l : List Char), l.length < f1 → l.length < f2 →
+    stdLoop op n f1 s o prev l = stdLoop op n f2 s o prev l := by
+  intro f1
+  induction f1 with
+  | zero => intro f2 s o prev l h1 _; exact absurd h1 (Nat.not_lt_zero _)
+  | succ f1 ih =>
+    intro f2 s o prev l h1 h2
+    cases l with
+    | nil => cases f2 <;> simp [stdLoop]
+    | cons c r =>
+      cases f2 with
+      | zero => exact absurd h2 (Nat.not_lt_zero _)
+      | succ f2 =>
+        simp only [stdLoop]
+        cases hs : stdStep op n s o prev c r with
+        | error e => rfl
+        | ok v =>
+          obtain ⟨s', o', cons, rest⟩ := v
+          have hp := stdStep_progress op n s o prev c r s' o' cons rest hs
+          have hk := skipSpaces_len rest
+          simp only [List.length_cons] at h1 h2
+          simp only
+          exact ih f2 _ _ _ _ (by omega) (by omega)
 
 end TfelVerif.C31
